@@ -309,7 +309,7 @@ func init() {
 		Plan: func(tier string, seed int64) []fw.Batch {
 			n, nf, nc := 800, 32, 40
 			if tier == "thorough" {
-				n, nf, nc = 20000, 128, 800
+				n, nf, nc = 60000, 160, 2000
 			}
 			var bs []fw.Batch
 			bs = append(bs, batches("histories", 12, n, 3000)...)
